@@ -861,6 +861,8 @@ class TorControlProtocol(LineOnlyReceiver):
             if cookiefile_match:
                 cookiefile = cookiefile_match.group(1)
                 cookiefile = unescape_quoted_string(cookiefile)
+                # octal escapes stand for the bytes of the file name
+                cookiefile = os.fsdecode(cookiefile.encode('latin-1'))
                 try:
                     self._read_cookie(cookiefile)
                     cookie_auth = True
